@@ -71,6 +71,79 @@ func init() {
 		*cell = copyVal(*p)
 		return Iface{T: i.T, V: cell}
 	})
+	// proto.Merge(dst, src) is reflection driven. It is modelled for *serviceconfig.Service only, and
+	// only for its Http field (the one health.AddHealthz fills): an unset dst.Http takes src.Http, a
+	// set one has src's rules appended (repeated fields concatenate under Merge). Any other source
+	// field that is set makes the path unsupported.
+	reg("google.golang.org/protobuf/proto.Merge", func(m *Machine, fn *ssa.Function, args []Value) Value {
+		d, _ := args[0].(Iface)
+		s, _ := args[1].(Iface)
+		const want = "*google.golang.org/genproto/googleapis/api/serviceconfig.Service"
+		if d.T == nil || s.T == nil || d.T.String() != want || s.T.String() != want {
+			m.unsupported("proto.Merge on " + m.show(d))
+		}
+		dp, _ := d.V.(*Value)
+		sp, _ := s.V.(*Value)
+		if dp == nil || sp == nil {
+			m.unsupported("proto.Merge with nil message")
+		}
+		st := d.T.(*types.Pointer).Elem().Underlying().(*types.Struct)
+		httpIdx := -1
+		for i := 0; i < st.NumFields(); i++ {
+			if st.Field(i).Name() == "Http" {
+				httpIdx = i
+			}
+		}
+		if httpIdx < 0 {
+			m.unsupported("serviceconfig.Service has no Http field")
+		}
+		ds, ss := (*dp).(Struct), (*sp).(Struct)
+		for i := 0; i < st.NumFields(); i++ {
+			if i == httpIdx || !st.Field(i).Exported() {
+				continue
+			}
+			switch v := ss[i].(type) {
+			case *Value:
+				if v != nil {
+					m.unsupported("proto.Merge: source field " + st.Field(i).Name() + " set (not modelled)")
+				}
+			case Slice:
+				if len(v) != 0 {
+					m.unsupported("proto.Merge: source field " + st.Field(i).Name() + " set (not modelled)")
+				}
+			case Str:
+				if v.Len() != 0 {
+					m.unsupported("proto.Merge: source field " + st.Field(i).Name() + " set (not modelled)")
+				}
+			}
+		}
+		sh, _ := ss[httpIdx].(*Value)
+		if sh == nil {
+			return nil
+		}
+		dh, _ := ds[httpIdx].(*Value)
+		if dh == nil {
+			cell := new(Value)
+			*cell = copyVal(*sh)
+			m.set(&ds[httpIdx], cell)
+			return nil
+		}
+		ht := st.Field(httpIdx).Type().(*types.Pointer).Elem().Underlying().(*types.Struct)
+		rulesIdx := -1
+		for i := 0; i < ht.NumFields(); i++ {
+			if ht.Field(i).Name() == "Rules" {
+				rulesIdx = i
+			}
+		}
+		dhs, shs := (*dh).(Struct), (*sh).(Struct)
+		dr, _ := dhs[rulesIdx].(Slice)
+		sr, _ := shs[rulesIdx].(Slice)
+		out := make(Slice, 0, len(dr)+len(sr))
+		out = append(out, dr...)
+		out = append(out, sr...)
+		m.set(&dhs[rulesIdx], out)
+		return nil
+	})
 	reg("math/rand.Intn", func(m *Machine, fn *ssa.Function, args []Value) Value {
 		n := m.ConcInt(args[0])
 		if n <= 0 {
